@@ -11,9 +11,11 @@ specdef("dep", {"c": "Change", "S": "Set[Resource]"}, "Bool",
 contract("_FindChangeDependencies._depends_on", abstract=True, params={"self": "_FindChangeDependencies", "changes": "Change", "result": "Seq[Change]"}, returns="Bool",
          ensures=["implies(result, dep(changes, self.changed_resources))", "implies(not result, not dep(changes, self.changed_resources))"],
          note="verified (two-sided) in c11_dependencies.py")
+specdef("distinct", {"s": "Seq[Change]"}, "Bool", "forall(lambda a, b: implies(0 <= a and a < b and b < len(s), s[a] != s[b]))")
+specdef("has", {"s": "Seq[Change]", "x": "Change"}, "Bool", "exists(lambda k: 0 <= k and k < len(s) and s[k] == x)")
 specdef("covers", {"S": "Set[Resource]", "c": "Change"}, "Bool", "forall(lambda a: implies(0 <= a and a < len(res_of(c)), select(S, res_of(c)[a])))")
 contract("_FindChangeDependencies.__call__", source=M + "_FindChangeDependencies.__call__", params={"self": "_FindChangeDependencies"}, returns="Seq[Change]",
-         requires=["len(self.change_list) >= 1", "self.change == self.change_list[0]", "covers(self.changed_resources, self.change)"],
+         requires=["len(self.change_list) >= 1", "self.change == self.change_list[0]", "covers(self.changed_resources, self.change)", "distinct(self.change_list)"],
          modifies=["self.changed_resources"], raises={}, locals={"result": "Seq[Change]"},
          ensures=[
              "len(result) >= 1 and result[0] == self.change",
@@ -28,9 +30,13 @@ contract("_FindChangeDependencies.__call__", source=M + "_FindChangeDependencies
              # only changes of the list are taken, at most once per position; nothing follows => only the change itself
              "len(result) <= len(self.change_list)",
              "forall(lambda t: implies(1 <= t and t < len(result), exists(lambda k: 1 <= k and k < len(self.change_list) and self.change_list[k] == result[t])))",
-             "implies(len(self.change_list) == 1, result == [self.change])"],
+             "implies(len(self.change_list) == 1, result == [self.change])",
+             # no change is taken twice
+             "distinct(result)"],
          loops={1: {"index": "i", "inv": [
              "len(result) <= i + 1",
+             "distinct(result)",
+             "forall(lambda t: implies(0 <= t and t < len(result), exists(lambda k: 0 <= k and k < i + 1 and self.change_list[k] == result[t])))",
              "forall(lambda t: implies(1 <= t and t < len(result), exists(lambda k: 1 <= k and k < i + 1 and self.change_list[k] == result[t])))",
              "len(result) >= 1 and result[0] == self.change",
              "forall(lambda x: implies(select(old(self.changed_resources), x), select(self.changed_resources, x)), 'Resource')",
@@ -48,10 +54,10 @@ contract("_FindChangeDependencies.__init__", source=M + "_FindChangeDependencies
          note="establishes the precondition of __call__")
 
 record("History", fields={})
-specdef("distinct", {"s": "Seq[Change]"}, "Bool", "forall(lambda a, b: implies(0 <= a and a < b and b < len(s), s[a] != s[b]))")
 contract("History._find_dependencies", source=M + "History._find_dependencies", params={"self": "History", "change_list": "Seq[Change]", "change": "Change"},
-         returns="Seq[Change]", requires=["len(change_list) >= 1", "change in change_list"], modifies=[], raises={},
+         returns="Seq[Change]", requires=["len(change_list) >= 1", "change in change_list", "distinct(change_list)"], modifies=[], raises={},
          ensures=["len(result) >= 1", "result[0] == change", "len(result) <= len(change_list)",
-                  "implies(change == change_list[len(change_list) - 1] and distinct(change_list), result == [change])",
-                  "forall(lambda t: implies(0 <= t and t < len(result), result[t] in change_list))"],
+                  "implies(change == change_list[len(change_list) - 1], result == [change])",
+                  "forall(lambda t: implies(0 <= t and t < len(result), exists(lambda k: 0 <= k and k < len(change_list) and change_list[k] == result[t])))",
+                  "distinct(result)"],
          note="the contract History.undo/redo use (c11_history.py), here verified from the body: index, slice, constructor, __call__")
